@@ -449,6 +449,20 @@ def unroll_literal_loops(tree, max_items=16, max_body=4):
                 return n
         return Beta().visit(node)
 
+    def beta_any(node):
+        # (lambda a, b: B)(x, y) -> B[a := x, b := y] for a lambda called once where it stood (arguments call-free or used once)
+        class BetaAny(ast.NodeTransformer):
+            def visit_Call(self, n):
+                self.generic_visit(n)
+                f_ = n.func
+                if isinstance(f_, ast.Lambda) and not n.keywords and len(f_.args.args) == len(n.args):
+                    m_ = {a.arg: v for a, v in zip(f_.args.args, n.args)}
+                    uses = {k: sum(1 for x in ast.walk(f_.body) if isinstance(x, ast.Name) and x.id == k) for k in m_}
+                    if all(uses[k] <= 1 or not any(isinstance(x, ast.Call) for x in ast.walk(v)) for k, v in m_.items()):
+                        return Sub(m_).visit(copy.deepcopy(f_.body)) if m_ else copy.deepcopy(f_.body)
+                return n
+        return BetaAny().visit(node)
+
     PURE_BUILTINS = {'len', 'int', 'float', 'str', 'abs', 'min', 'max', 'bool', 'round'}
 
     def pure_fn_body(e):
@@ -526,7 +540,18 @@ def unroll_literal_loops(tree, max_items=16, max_body=4):
                     and ((len(s.body) <= max_body and simple_body) or table_body)):
                 tg = s.target
                 names = [tg.id] if isinstance(tg, ast.Name) else [e.id for e in tg.elts] if isinstance(tg, ast.Tuple) and all(isinstance(e, ast.Name) for e in tg.elts) else None
-                ok = names is not None and all(simple(e) for e in s.iter.elts)
+                # a column of lambdas that the body calls exactly once per row is inlined at its call (the call happens where the body stood)
+                fn_cols = set()
+                if names is not None and isinstance(tg, ast.Tuple) and all(isinstance(e, (ast.Tuple, ast.List)) and len(e.elts) == len(names) for e in s.iter.elts):
+                    for ci, nm_ in enumerate(names):
+                        uses_ = [n for b in s.body for n in ast.walk(b) if isinstance(n, ast.Name) and n.id == nm_]
+                        calls_ = [c for b in s.body for c in ast.walk(b) if isinstance(c, ast.Call) and isinstance(c.func, ast.Name) and c.func.id == nm_]
+                        if len(uses_) == 1 and len(calls_) == 1 and all(isinstance(e.elts[ci], ast.Lambda) and len(e.elts[ci].args.args) == len(calls_[0].args) and not calls_[0].keywords
+                                                                          and not (e.elts[ci].args.vararg or e.elts[ci].args.kwarg or e.elts[ci].args.defaults or e.elts[ci].args.kwonlyargs)
+                                                                          and not any(isinstance(x, (ast.Lambda, ast.ListComp, ast.SetComp, ast.DictComp, ast.GeneratorExp, ast.NamedExpr))
+                                                                                      for x in ast.walk(e.elts[ci].body)) for e in s.iter.elts):
+                            fn_cols.add(ci)
+                ok = names is not None and all(simple(e) if not fn_cols else all(simple(c_) for k_, c_ in enumerate(e.elts) if k_ not in fn_cols) for e in s.iter.elts)
                 if ok and isinstance(tg, ast.Tuple):
                     ok = all(isinstance(e, (ast.Tuple, ast.List)) and len(e.elts) == len(names) for e in s.iter.elts)
                 if ok:
@@ -544,9 +569,9 @@ def unroll_literal_loops(tree, max_items=16, max_body=4):
                             for b in s.body:
                                 out.append(ast.copy_location(Sub(m).visit(copy.deepcopy(b)), s))
                         else:
-                            inner = [ast.copy_location(Sub(m).visit(copy.deepcopy(b)), s) for b in rest_body]
+                            inner = [ast.copy_location(beta_any(Sub(m).visit(copy.deepcopy(b))) if fn_cols else Sub(m).visit(copy.deepcopy(b)), s) for b in rest_body]
                             if guards:
-                                conds = [push_not(Sub(m).visit(copy.deepcopy(g_))) for g_ in guards]
+                                conds = [push_not(beta_any(Sub(m).visit(copy.deepcopy(g_))) if fn_cols else Sub(m).visit(copy.deepcopy(g_))) for g_ in guards]
                                 test = conds[0] if len(conds) == 1 else ast.BoolOp(op=ast.And(), values=conds)
                                 node_ = ast.copy_location(ast.If(test=test, body=inner, orelse=[]), s)
                                 ast.fix_missing_locations(node_)
@@ -747,6 +772,15 @@ def flatten_starred_displays(tree):
             self.generic_visit(node)
             if isinstance(node.ctx, ast.Load):
                 node.elts = self._flat(node.elts)
+            return node
+
+        def visit_BinOp(self, node):
+            self.generic_visit(node)
+            # N42: (a, b) + (c,) is (a, b, c); [a] + [b, c] is [a, b, c]
+            if isinstance(node.op, ast.Add) and type(node.left) is type(node.right) and isinstance(node.left, (ast.Tuple, ast.List)) \
+                    and isinstance(node.left.ctx, ast.Load) and isinstance(node.right.ctx, ast.Load):
+                count[0] += 1
+                return ast.copy_location(type(node.left)(elts=list(node.left.elts) + list(node.right.elts), ctx=ast.Load()), node)
             return node
 
         def visit_Subscript(self, node):
@@ -1295,6 +1329,156 @@ def records_to_dicts(tree, known_globals=None):
     return count[0]
 
 
+def zip_of_maps(tree):
+    """N41  zip(repeat(c), R, (E(x) for x in R), ..) over ONE re-iterable R (a range(..) call, or a local bound once to one) is the generator
+    ((c, x, E(x), ..) for x in R): every component is a function of the same element"""
+    import copy
+    count = [0]
+    for fn in [n for n in ast.walk(tree) if isinstance(n, (ast.FunctionDef, ast.AsyncFunctionDef))]:
+        defs = {}
+        for a in ast.walk(fn):
+            if isinstance(a, ast.Assign) and len(a.targets) == 1 and isinstance(a.targets[0], ast.Name):
+                defs.setdefault(a.targets[0].id, []).append(a.value)
+
+        def reiterable(e):
+            if isinstance(e, ast.Call) and isinstance(e.func, ast.Name) and e.func.id == 'range':
+                return True
+            if isinstance(e, ast.Name) and len(defs.get(e.id, [])) == 1:
+                v = defs[e.id][0]
+                return isinstance(v, (ast.List, ast.Tuple)) or (isinstance(v, ast.Call) and isinstance(v.func, ast.Name) and v.func.id == 'range')
+            return False
+
+        class T(ast.NodeTransformer):
+            def visit_Call(self, node):
+                self.generic_visit(node)
+                if not (isinstance(node.func, ast.Name) and node.func.id == 'zip' and len(node.args) >= 2 and not node.keywords):
+                    return node
+                base = None
+                parts = []
+                for a in node.args:
+                    if isinstance(a, ast.Name) and len(defs.get(a.id, [])) == 1 and isinstance(defs[a.id][0], ast.GeneratorExp) \
+                            and sum(1 for n_ in ast.walk(fn) if isinstance(n_, ast.Name) and n_.id == a.id and isinstance(n_.ctx, ast.Load)) == 1:
+                        consumed.add(a.id)
+                        a = defs[a.id][0]          # a generator bound to a local that only this zip consumes
+                    if isinstance(a, ast.Call) and ast.unparse(a.func) in ('repeat', 'itertools.repeat') and len(a.args) == 1 and not a.keywords:
+                        parts.append(('const', a.args[0]))
+                    elif isinstance(a, ast.GeneratorExp) and len(a.generators) == 1 and not a.generators[0].ifs and isinstance(a.generators[0].target, ast.Name) and reiterable(a.generators[0].iter):
+                        parts.append(('map', a))
+                        b = ast.unparse(a.generators[0].iter)
+                        if base is not None and b != base:
+                            return node
+                        base = b
+                    elif reiterable(a):
+                        parts.append(('id', a))
+                        b = ast.unparse(a)
+                        if base is not None and b != base:
+                            return node
+                        base = b
+                    else:
+                        return node
+                if base is None or not any(k == 'id' or k == 'map' for k, _ in parts):
+                    return node
+                var = next((p.generators[0].target.id for k, p in parts if k == 'map'), 'item_z')
+                it = next((p.generators[0].iter for k, p in parts if k == 'map'), None) or next(p for k, p in parts if k == 'id')
+                elts = []
+                for k, p in parts:
+                    if k == 'const':
+                        elts.append(p)
+                    elif k == 'id':
+                        elts.append(ast.Name(id=var, ctx=ast.Load()))
+                    else:
+                        class R(ast.NodeTransformer):
+                            def visit_Name(self, n, old=p.generators[0].target.id):
+                                return ast.copy_location(ast.Name(id=var, ctx=n.ctx), n) if n.id == old else n
+                        elts.append(R().visit(copy.deepcopy(p.elt)))
+                ge = ast.GeneratorExp(elt=ast.Tuple(elts=elts, ctx=ast.Load()), generators=[ast.comprehension(target=ast.Name(id=var, ctx=ast.Store()), iter=copy.deepcopy(it), ifs=[], is_async=0)])
+                count[0] += 1
+                return ast.fix_missing_locations(ast.copy_location(ge, node))
+        consumed = set()
+        before = count[0]
+        T().visit(fn)
+        if count[0] != before and consumed:
+            # the locals whose generator went into the rewritten zip are dead now
+            def drop(stmts):
+                out = []
+                for st in stmts:
+                    for fld in ('body', 'orelse', 'finalbody'):
+                        sub = getattr(st, fld, None)
+                        if isinstance(sub, list) and sub and isinstance(sub[0], ast.stmt) and not isinstance(st, ast.ClassDef):
+                            setattr(st, fld, drop(sub) or [ast.copy_location(ast.Pass(), st)])
+                    if isinstance(st, ast.Assign) and len(st.targets) == 1 and isinstance(st.targets[0], ast.Name) and st.targets[0].id in consumed \
+                            and not any(isinstance(n_, ast.Name) and n_.id == st.targets[0].id and isinstance(n_.ctx, ast.Load) for n_ in ast.walk(fn)):
+                        continue
+                    out.append(st)
+                return out
+            fn.body = drop(fn.body)
+    return count[0]
+
+
+def loop_target_unpacking(tree):
+    """N43  `for X in IT: ..; a, b, c = X; ..` (X used nowhere else, nothing before the unpacking mentions X or a, b, c) -> `for a, b, c in IT: ..`;
+    N28b `c = -1; for T in IT: c += 1; BODY` (c advanced first in every iteration, not read after the loop) -> `for c, T in enumerate(IT): BODY`"""
+    count = [0]
+    for fn in [n for n in ast.walk(tree) if isinstance(n, (ast.FunctionDef, ast.AsyncFunctionDef))]:
+        for par in list(ast.walk(fn)):
+            for fld in ('body', 'orelse', 'finalbody'):
+                blk = getattr(par, fld, None)
+                if not isinstance(blk, list):
+                    continue
+                for k, l in enumerate(blk):
+                    if not isinstance(l, ast.For):
+                        continue
+                    # N28b
+                    prev = blk[k - 1] if k > 0 else None
+                    if isinstance(prev, ast.Assign) and len(prev.targets) == 1 and isinstance(prev.targets[0], ast.Name) and isinstance(prev.value, ast.UnaryOp) and isinstance(prev.value.op, ast.USub) \
+                            and isinstance(prev.value.operand, ast.Constant) and prev.value.operand.value == 1 and l.body and isinstance(l.body[0], ast.AugAssign) \
+                            and isinstance(l.body[0].target, ast.Name) and l.body[0].target.id == prev.targets[0].id and isinstance(l.body[0].op, ast.Add) \
+                            and isinstance(l.body[0].value, ast.Constant) and l.body[0].value.value == 1 and not l.orelse:
+                        c = prev.targets[0].id
+                        stores = [n for b in l.body[1:] for n in ast.walk(b) if isinstance(n, ast.Name) and n.id == c and isinstance(n.ctx, (ast.Store, ast.Del))]
+                        inside = {id(n) for n in ast.walk(l)} | {id(n) for n in ast.walk(prev)}
+                        later = [n for n in ast.walk(fn) if isinstance(n, ast.Name) and n.id == c and id(n) not in inside]
+                        if not stores and not later and c not in {n.id for n in ast.walk(l.iter) if isinstance(n, ast.Name)}:
+                            l.target = ast.Tuple(elts=[ast.Name(id=c, ctx=ast.Store()), l.target], ctx=ast.Store())
+                            l.iter = ast.Call(func=ast.Name(id='enumerate', ctx=ast.Load()), args=[l.iter], keywords=[])
+                            l.body = l.body[1:] or [ast.Pass()]
+                            blk[k - 1] = ast.copy_location(ast.Pass(), prev)
+                            ast.fix_missing_locations(l)
+                            count[0] += 1
+                    # N43 (also for the element under enumerate)
+                    tgt_holder = None
+                    if isinstance(l.target, ast.Name):
+                        tgt_holder = ('direct', l.target.id)
+                    elif isinstance(l.target, ast.Tuple) and len(l.target.elts) == 2 and isinstance(l.target.elts[1], ast.Name) and isinstance(l.iter, ast.Call) \
+                            and isinstance(l.iter.func, ast.Name) and l.iter.func.id == 'enumerate':
+                        tgt_holder = ('enum', l.target.elts[1].id)
+                    if tgt_holder is None:
+                        continue
+                    x = tgt_holder[1]
+                    for j, st in enumerate(l.body):
+                        if isinstance(st, ast.Assign) and len(st.targets) == 1 and isinstance(st.targets[0], (ast.Tuple, ast.List)) and isinstance(st.value, ast.Name) and st.value.id == x \
+                                and all(isinstance(e, ast.Name) for e in st.targets[0].elts):
+                            names = {e.id for e in st.targets[0].elts}
+                            uses = [n for n in ast.walk(fn) if isinstance(n, ast.Name) and n.id == x and n is not st.value and not any(n is t_ for t_ in ast.walk(l.target))]
+                            before = {n.id for b in l.body[:j] for n in ast.walk(b) if isinstance(n, ast.Name)}
+                            bound_elsewhere = [n for n in ast.walk(fn) if isinstance(n, ast.Name) and n.id in names and isinstance(n.ctx, ast.Store) and not any(n is t_ for t_ in ast.walk(st))]
+                            if not uses and not (before & (names | {x})) and not bound_elsewhere:
+                                new_t = ast.Tuple(elts=[ast.Name(id=e.id, ctx=ast.Store()) for e in st.targets[0].elts], ctx=ast.Store())
+                                if tgt_holder[0] == 'direct':
+                                    l.target = new_t
+                                else:
+                                    l.target.elts[1] = new_t
+                                del l.body[j]
+                                if not l.body:
+                                    l.body = [ast.Pass()]
+                                ast.fix_missing_locations(l)
+                                count[0] += 1
+                            break
+                # remove the Pass placeholders left by N28b
+                blk[:] = [b for b in blk if not (isinstance(b, ast.Pass) and len(blk) > 1)] or blk
+    return count[0]
+
+
 def merge_twin_branches(tree):
     """N30: `if c: T(A) else: T(B)` where both arms are the same single statement up to one sub-expression (the same call / assignment with
     one differing argument or value) -> `T(A if c else B)`."""
@@ -1379,8 +1563,10 @@ def normalize(tree):
     n = Normalizer()
     tree = n.visit(tree)
     n.counts['iterate_self'] = iterate_self(tree)
+    n.counts['zip_of_maps'] = zip_of_maps(tree)
     n.counts['generators_to_loops'] = generators_to_loops(tree)
     n.counts['any_counters'] = any_to_loop_and_counters_to_enumerate(tree)
+    n.counts['loop_target_unpacking'] = loop_target_unpacking(tree)
     n.counts['dict_updates_merged'] = merge_dict_updates(tree)
     n.counts['loop_exit_hoisted'] = hoist_loop_exit_assignments(tree)
     n.counts['counting_while'] = counting_while_to_for(tree)
